@@ -120,6 +120,52 @@ W = {
 "C20-d": ("v1 `AddProc` writes `tasks` (one thread)", "multi-threaded helpers, `ThreadsOK`, facts before accounting (was exit 2)"),
 "C20-e": ("`V1.New` copies cpuset unconditionally", ""),
 "C20-f": ("twin of C20-d", ""),
+"C01-f": ("twin of C01-e (filter cache keyed without the default action)", ""),
+"C01-g": ("Action return code ORed unshifted into the BPF return word (lands in the action bits)", ""),
+"C02-f": ("`vmReadStr` swallows a `process_vm_readv` error on a later chunk: no PEEKDATA fallback", "protection of the NUL's page (rw / `PROT_WRITE` only / `PROT_NONE`), 31 placements, memory family 720"),
+"C03-f": ("twin of C03-a / C03-e (Pid/Tid split, ban of a non-leader thread not applied)", ""),
+"C04-f": ("unshare runner sets `DropCaps = (os.Getuid() == 0)`: non-root caller keeps all caps in the userns", "runner-level family (unshare / ptrace runner × caller uid {0, 65534} × callback), same `PostViol`"),
+"C05-f": ("`Builder.Build` clears `MS_RDONLY` when the bind source is read-only at Build time", "kind `bdrof` (source tmpfs ro while the table is built, writable when the sandbox runs)"),
+"C05-g": ("container makes only the fresh root tmpfs private (no-op), not `/`", ""),
+"C06-g": ("twin of C06-b (`nextfd` as unsigned maximum wraps to 0 with the close marker)", ""),
+"C06-h": ("`handleExecve` strips one leading fd when both ExecFile and CgroupFD are sent", ""),
+"C07-f": ("pass-1 skip guard for status socket / exec fd hoisted out of the loop: socket overwritten", "`Launch_Gen!LowTable` descriptor-table dimension for launches that must not run the program"),
+"C07-g": ("id-map result written to the child with `err1` (always 0) instead of `err2`", ""),
+"C08-f": ("container init also ignores SIGXCPU/SIGXFSZ: programs inherit `SIG_IGN`", "probe keeps and reports inherited dispositions; `Limits!StartDispositionsOK`"),
+"C09-f": ("ptrace `signalStatus` evaluated into the named return before the main-pid test", ""),
+"C09-g": ("container `convertReply` uses a guarded 32-entry table: real-time signals → Normal", "signal classes 15, 30, 32-35, 50, 63, 64 in every runner's quick essentials; `StatusRunners_table32.cfg`"),
+"C10-h": ("oob buffer shrunk to `CmsgSpace(253*4)`: no room for `SO_PASSCRED` credentials", "op `open/max` (253 files, all succeed) in the `ContainerAPI` alphabet"),
+"C10-i": ("`handleReset` sends one error reply per failing tmpfs mount", "sessions with tmpfs nested in both Reset mounts (gate `nested`), `reset/busy` histories (family `Nested`)"),
+"C10-j": ("host `recvLoop` answers a Ping deadline with a synthetic reply and keeps receiving", ""),
+"C10-k": ("`payloadTooLarge` as typed error: `errors.Is` against the sentinel pointer never true", ""),
+"C11-h": ("sync socket relocated with `F_DUPFD` (no cloexec): program inherits it, `Start` never sees EOF", ""),
+"C11-i": ("twin of C11-a (leader killed before exec → Runner Error)", ""),
+"C11-j": ("cancel branch fast path returns a queued result without the kill handshake", "family `BothPending` (API goroutine held until both select cases are ready, then a follow-up run)"),
+"C11-k": ("twin of C11-h", ""),
+"C12-h": ("refusing `SyncFunc`: parent closes the socket and returns without kill + `wait4`", ""),
+"C12-i": ("end-of-run `killAll`/`collectZombie` only if `ph.traced` non-empty; watcher stops on done", "escape `untraced` (`CLONE_UNTRACED`) in `ProcTree`; 1-byte memory limit in the ptrace counter scenario"),
+"C12-j": ("init reaps with `wait4(-pgid)` instead of `wait4(-1)` after `kill(-1)`", ""),
+"C12-k": ("MSG_CTRUNC-only message: installed fds returned next to the error, never closed", "counter scenario `fdtight` (RLIMIT_NOFILE leaves 3 free slots, Open of 8 files fails)"),
+"C13-g": ("twin of C13-a (memfd pre-sized to the whole file length)", ""),
+"C13-h": ("twin of C13-e via `os.Stat` following symlinks to other file systems", ""),
+"C14-g": ("twin of C10-h (oob buffer too small for 253 fds + credentials)", ""),
+"C14-h": ("`handleOpen` two passes: a failed `MkdirAll` item is still opened, later fds shift", "directory-chain family (`/w/l` absent/dir/file/link × `/w/t`, 8 batch patterns); MkdirAll runs right before its own check"),
+"C15-f": ("twin of C15-a (`int(sysno)` negative index passes the upper-bound check)", ""),
+"C15-g": ("`SETOPTIONS` errno wrapped with `%w`: `err != unix.ESRCH` tolerance lost", ""),
+"C16-h": ("twin of C07-b seeded against C16 (EOF on the sync read taken for a go-ahead)", ""),
+"C16-i": ("twin of C16-a (auto-attached tracees lose `PTRACE_O_EXITKILL`)", ""),
+"C16-j": ("Pdeathsig SIGTERM handled by a goroutine closing `done`: init busy in `conf` never exits", "crash point `conf.init` (`InitCommand` = signal-ignoring program; controller killed while Build waits)"),
+"C16-k": ("`sendReplyFiles` waits on `Done` only; send loop leaves on `c.done`: init blocks", ""),
+"C17-g": ("`Trace` runs in a goroutine that locks its OS thread and never unlocks: thread exit fires Pdeathsig", ""),
+"C17-h": ("`GetString` buffers from an uncleared `sync.Pool`", "`ptracet` alternates its opens with `openat` on an unreadable pointer (`badopen`)"),
+"C17-i": ("`Open` leaves `ForkLock` read-held when `recvReply` fails", "kind `envX-openloss` in an early round; driver stops after a round with a hang"),
+"C17-j": ("sync socketpair created without `SOCK_CLOEXEC` outside `ForkLock`", ""),
+"C18-g": ("`canonicalName` = `filepath.Clean` in `Check*`: `\"\"` becomes `\".\"`", ""),
+"C18-h": ("`GetConf` starts from a shallow copy of package-level `baseFileSets` (maps shared)", "default policy observed before any other exists and again after all were assembled (baseline-first)"),
+"C19-f": ("`keepDesc` appends to `pendingDesc` instead of replacing: descriptors doubled", ""),
+"C19-g": ("`oobn == 0` fast path before the MSG_CTRUNC check", "pressure pairs cross free slots {0,1,2,252} × `SO_PASSCRED` on/off × descriptors sent"),
+"C20-g": ("twin of C20-d / C20-f (`tasks` instead of `cgroup.procs`)", ""),
+"C20-h": ("twin of C20-c (`remove()` via `os.RemoveAll`)", ""),
 }
 
 rows = []
